@@ -169,7 +169,7 @@ class Assoc(sm.SM):
         return ["Small"]
 
     def harness_cfg(self, cfgname, init_state):
-        return dict(Mode="NtsV4", MinPoll=4, MaxPoll=4, LocalStratum=16, SrcLocal=False, init_stash=[],
+        return dict(Mode="NtsV5" if cfgname.endswith("V5") else "NtsV4", MinPoll=4, MaxPoll=4, LocalStratum=16, SrcLocal=False, init_stash=[],
                     History=0, MaxGen=1, MaxNet=1, CLen=104)
 
     def act_sig(self, a):
@@ -189,6 +189,7 @@ def assoc_stage(out, prop, tier, seed):
     out.add("states", res.distinct)
     out.add("transitions", res.generated)
     if tier == "thorough":
+        a.model_and_replay(out, prop, tier, seed, "SmallV5", max_len=80)     # the same composition over NTPv5
         res = vf.run_tlc("Assoc", "MC_Assoc_V4.cfg", workers=8, timeout=3000, coverage=False)
         if res.violated:
             raise vf.ToolError("Assoc (V4 model) violates %s at design level" % res.violated)
